@@ -10,7 +10,13 @@ and segment states, every constructor and history); stream covering-x: crossing 
 bond and generic weights, every history passing through the 'A' and 'C' forms; stream segment-dense: segments with
 non-trivial outer bonds on both sides, dense state INCLUDING segment_boundaries (U_L, V_R) and psi.norm, embedded into
 the Schmidt states of the parent, through histories of repeated canonical_form / apply_local_op interleaved with
-set_B of perturbed tensors near both boundaries; MPS.overlap with a copy taken before every such operation.
+set_B of perturbed tensors near both boundaries; MPS.overlap with a copy taken before every such operation;
+stream mixed-dtype (harness/c07_ext.py): tensors / local states of DIFFERENT dtypes (real on some sites, complex on others,
+also real on site 0) handed to the raw-tensor constructor MPS(sites, Bs, SVs), from_Bflat, from_product_mps_covering and
+add, finite / segment / infinite; bond-index coverage: in every stream and after every operation entanglement_entropy(n=1, 2;
+bonds=list and int), get_SL and get_SR at ALL accepted indices (finite, segment: bonds 0..L incl. the outer ones, sites
+-L..L-1; infinite: beyond the unit cell on both sides) and, for segments, entanglement_entropy() / entanglement_spectrum()
+with default arguments (L+1 bonds) against the dense Schmidt values of the addressed cut.
 """
 import json
 
@@ -22,6 +28,7 @@ import numpy as np  # noqa: E402
 import common
 import mps_gen as G
 import c07_valued
+import c07_ext as X
 from common import coq_lit, Nat, CoqRaw
 
 TOL = 2e-9
@@ -309,12 +316,20 @@ class FiniteRef:
         self.vec = np.array(vec, dtype=complex)
         self.norm = norm
         self.canon = canon
+        self.epoch = 0          # counts the operations that change the ray of the state (keys of the Schmidt cache)
 
-    def apply(self, op, norm_before):
+    def apply(self, op, D_other):
         t = op['op']
         if t == 'set_B_scaled':
             self.vec = self.vec * cplx(op['c'])
             self.canon = False
+        elif t == 'add':
+            # alpha |self> + beta |other>, both including their norms; the sum is canonicalised with renormalize=False
+            # on a new MPS (norm 1): its norm is recorded in psi.norm
+            self.vec = cplx(op['alpha']) * self.vec + cplx(op['beta']) * D_other['vec'] * op.get('other_norm', 1.0)
+            self.norm = float(np.linalg.norm(self.vec))
+            self.canon = True
+            self.epoch += 1
         elif t == 'canonical_form':
             n = np.linalg.norm(self.vec)
             if op['renormalize']:
@@ -420,12 +435,15 @@ def check_finite(ctx, case, r, A, key, D, SI):
     S = G.Sites(spec['sites'], SI)
     L = len(S.kinds)
     b = spec['build']
-    canon0 = not (b['method'] == 'bflat' and max(b['chi']) == 1)
+    canon0 = D['canon'] if 'canon' in D else not (b['method'] == 'bflat' and max(b['chi']) == 1)
     ref = FiniteRef(D['vec'], D['norm'], canon0)
     obs = r['obs']
     ops = case.get('ops', [])
-    info = {'stream': 'finite', 'case': case}
+    info = {'stream': case.get('stream', 'finite'), 'case': case}
     method = b['method']
+    if X.is_mixed(spec):
+        method = '%s with tensors of mixed dtype %s' % (b.get('ctor', method), ['complex' if f else 'real' for f in b['mixed']])
+    wb = case.get('want', {}).get('bonds')
 
     def fail(msg, step, mk=None):
         ctx.fail('oracle', 'finite MPS built by %s, after %d operation(s) %s: %s' % (
@@ -442,7 +460,7 @@ def check_finite(ctx, case, r, A, key, D, SI):
                     tn = float(np.linalg.norm(G.explicit_theta(Bs, Ss, forms, ops[k - 1]['i'], 2, True)))
             ref.set_svd_theta(ops[k - 1], tn)
         elif k > 0:
-            ref.apply(ops[k - 1], None)
+            ref.apply(ops[k - 1], G.build_data(ops[k - 1]['other'], SI) if ops[k - 1]['op'] == 'add' else None)
         if o is None:
             # probe
             op = ops[k - 1]
@@ -473,7 +491,7 @@ def check_finite(ctx, case, r, A, key, D, SI):
             vt = ref.vec / np.linalg.norm(ref.vec)
             ents = []
             for cut in range(1, L):
-                sd = dense_schmidt(vt, cut, key=('f', id(D)))
+                sd = dense_schmidt(vt, cut, key=('f', id(D), ref.epoch))
                 ents.append(G.entropy(sd))
                 m = cmp_spec(Ss[cut], sd)
                 if m:
@@ -493,7 +511,7 @@ def check_finite(ctx, case, r, A, key, D, SI):
                 for cut in range(1, L):
                     if cut - 1 >= len(o['spec_q']) or kk + '_specq%d' % (cut - 1) not in A:
                         continue
-                    refq = dense_sector_schmidt(vt, cut, S, key=('f', id(D)))
+                    refq = dense_sector_schmidt(vt, cut, S, key=('f', id(D), ref.epoch))
                     if refq is None:
                         continue
                     m = cmp_sector_spectra(o['spec_q'][cut - 1], A[kk + '_specq%d' % (cut - 1)], refq, S.mod)
@@ -506,6 +524,10 @@ def check_finite(ctx, case, r, A, key, D, SI):
                 fail('norm_test() = %.2e in canonical form' % o['norm_test'], k)
             if 'ent_error' in o:
                 fail('entanglement_entropy / norm_test raise ' + o['ent_error'], k)
+            # every bond index the API accepts, incl. the trivial outer bonds 0 and L
+            X.check_bonds(o, A, kk, wb, L, True,
+                          lambda bnd: np.ones(1) if bnd in (0, L) else dense_schmidt(vt, bnd, key=('f', id(D), ref.epoch)),
+                          lambda msg: fail(msg, k))
         if 'qtotal_phys' in o and S.mod:
             nzi = np.unravel_index(int(np.argmax(np.abs(ref.vec))), ref.vec.shape)
             q = S.valid(np.sum([S.q[i][nzi[i]] for i in range(L)], axis=0))
@@ -546,8 +568,10 @@ def check_infinite(ctx, case, r, A, key, D, SI):
     ref = InfRef(D, L)
     obs = r['obs']
     ops = case.get('ops', [])
-    info = {'stream': 'infinite', 'case': case}
+    info = {'stream': case.get('stream', 'infinite'), 'case': case}
     method = spec['build']['method']
+    if X.is_mixed(spec):
+        method = '%s with tensors of mixed dtype %s' % (spec['build'].get('ctor', method), ['complex' if f else 'real' for f in spec['build']['mixed']])
     segs = case['want']['rdm']
 
     def fail(msg, step, mk=None):
@@ -577,8 +601,10 @@ def check_infinite(ctx, case, r, A, key, D, SI):
                     m = cmp_spec(Ss[b], sd, tol=2e-6)
                     if m:
                         fail('stored _S[%d] are not the Schmidt coefficients of the state (%s)' % (b, m), k)
-                if 'entropy' in o and max([abs(a - c) for a, c in zip(o['entropy'], ents)] + [0]) > 1e-5:
+                if 'entropy' in o and (len(o['entropy']) != L or max([abs(a - c) for a, c in zip(o['entropy'], ents)] + [0]) > 1e-5):
                     fail('entanglement_entropy %s, reference %s' % (o['entropy'], ents), k)
+                # bond / site indices beyond the unit cell on both sides
+                X.check_bonds(o, A, kk, case['want'].get('bonds'), L, False, ref.schmidt, lambda msg: fail(msg, k), tol=1e-5, stol=2e-6)
             if o.get('norm_test', 0) > 1e-6:
                 fail('norm_test() = %.2e in canonical form' % o['norm_test'], k)
         last = k
@@ -593,10 +619,17 @@ def check_segment(ctx, case, r, A, key, Dpar, SI):
     vec = Dpar['vec'] / np.linalg.norm(Dpar['vec'])
     obs = r['obs']
     ops = case.get('ops', [])
-    info = {'stream': 'segment', 'case': case}
+    info = {'stream': case.get('stream', 'segment'), 'case': case}
     segs = case['want']['rdm']
     ref = FiniteRef(vec, Dpar['norm'], True)
     Spar = G.Sites(par['sites'], SI)
+
+    def seg_schmidt(cut):
+        # the cut left of site `cut` of the segment is the cut first+cut of the parent (trivial at its ends)
+        g = first + cut
+        if g <= 0 or g >= vec.ndim:
+            return np.ones(1)
+        return dense_schmidt(vec, g, key=('s', id(Dpar)))
 
     def fail(msg, step, mk=None):
         ctx.fail('oracle', 'segment [%d,%d] of a finite MPS built by %s, after %d operation(s) %s: %s' % (
@@ -642,6 +675,21 @@ def check_segment(ctx, case, r, A, key, Dpar, SI):
                              'Schmidt decomposition of the parent state (%s)' % (cut, m), k)
             if o.get('norm_test', 0) > 1e-8:
                 fail('norm_test() = %.2e in canonical form' % o['norm_test'], k)
+            if all(f is not None for f in forms) and all(s_ is not None for s_ in Ss):
+                # a segment has n+1 non-trivial bonds 0..n: entropies / spectra with the default arguments, then every
+                # bond and site index the API accepts
+                if 'ent_error' in o:
+                    fail('entanglement_entropy / entanglement_spectrum / norm_test raise ' + o['ent_error'], k)
+                X.check_default_entropy(o, [G.entropy(seg_schmidt(c)) for c in range(n + 1)], 'bonds 0..%d of the segment' % n,
+                                        lambda msg: fail(msg, k))
+                if 'nspec' in o and o['nspec'] != n + 1:
+                    fail('entanglement_spectrum() returns %d spectra, the segment has %d non-trivial bonds' % (o['nspec'], n + 1), k)
+                for cut in range(n + 1):
+                    if kk + '_spec%d' % cut in A:
+                        m = cmp_spec(np.exp(-A[kk + '_spec%d' % cut] / 2.), seg_schmidt(cut))
+                        if m:
+                            fail('entanglement_spectrum()[%d] is not the Schmidt spectrum of the parent state at that cut (%s)' % (cut, m), k)
+                X.check_bonds(o, A, kk, case['want'].get('bonds'), n, True, seg_schmidt, lambda msg: fail(msg, k))
         lastk = k
 
 
@@ -847,13 +895,20 @@ def check_segment_dense(ctx, case, r, A, key, Dpar, SI):
             full = embed(cur)
             full = full / np.linalg.norm(full)
             Ss = stored(A, kk, o)[1]
+            sds = []
             for cut in range(0, n + 1):
                 # axes of full: [env-left (flattened) | a0] , p_0..p_n-1, [env-right (flattened) | b0]
                 dl = int(np.prod(full.shape[:1 + cut]))
                 sd = np.linalg.svd(full.reshape(dl, -1), compute_uv=False)
+                sds.append(sd / np.linalg.norm(sd))
                 m = cmp_spec(Ss[cut], sd / np.linalg.norm(sd))
                 if m:
                     fail('stored _S[%d] are not the Schmidt coefficients of the state at that cut (%s)' % (cut, m), k)
+            # tenpy's own answers at all n+1 non-trivial bonds of the segment (default arguments and explicit indices)
+            if 'ent_error' in o:
+                fail('entanglement_entropy / entanglement_spectrum / norm_test raise ' + o['ent_error'], k)
+            X.check_default_entropy(o, [G.entropy(s_) for s_ in sds], 'bonds 0..%d of the segment' % n, lambda msg: fail(msg, k), tol=1e-6)
+            X.check_bonds(o, A, kk, case['want'].get('bonds'), n, True, lambda bnd: sds[bnd], lambda msg: fail(msg, k), tol=1e-6)
             if o.get('norm_test', 0) > 1e-8:
                 fail('norm_test() = %.2e in canonical form' % o['norm_test'], k)
         ref = cur
@@ -987,6 +1042,7 @@ def main(ctx):
     ninf = ctx.pick(60, 600) * mult
     nseg = ctx.pick(40, 400) * mult
     cases = []
+    nbw = []        # generated cases that get the bond-index request (drawn from a separate stream afterwards)
     for c in common.corpus_cases('C07'):
         cases.append(c['case'])
     if ctx.replay_in:
@@ -997,6 +1053,7 @@ def main(ctx):
         spec = gen_finite_case(rng)
         L = len(spec['sites'])
         cases.append({'state': spec, 'ops': gen_c07_ops(rng, L, 'finite', rng.randint(0, 5)), 'want': {}})
+        nbw.append(cases[-1])
     for n in range(nseg):
         par = gen_finite_case(rng, allow=['full', 'full_sparse', 'circuit', 'bflat', 'singlets'], maxdim=800)
         while par['build']['method'] == 'bflat' and max(par['build']['chi']) == 1:
@@ -1015,12 +1072,14 @@ def main(ctx):
             segs.append([0, n_seg - 1])
         spec = {'bc': 'segment', 'sites': par['sites'][first:last + 1], 'parent': par, 'segment': [first, last]}
         cases.append({'state': spec, 'ops': gen_c07_ops(rng, n_seg, 'segment', rng.randint(0, 4)), 'want': {'rdm': segs}})
+        nbw.append(cases[-1])
     for n in range(ninf):
         spec = gen_infinite_case(rng)
         L = len(spec['sites'])
         dims = [G.std_table(k)[0] for k in spec['sites']]
         cases.append({'state': spec, 'ops': gen_c07_ops(rng, L, 'infinite', rng.randint(0, 4)),
                       'want': {'rdm': inf_segments(rng, L, dims)}})
+        nbw.append(cases[-1])
     # crossing / interleaved coverings with several charge sectors per bond and generic Schmidt weights; every history
     # passes through the 'A' and the 'C' form (own random stream: the cases above do not depend on it)
     rx = _random.Random(ctx.seed * 7919 + 727)
@@ -1032,22 +1091,55 @@ def main(ctx):
             pos = rx.choice([j for j in range(len(ops) + 1) if j == 0 or ops[j - 1]['op'] != 'set_B_scaled'])
             ops.insert(pos, {'op': 'convert_form', 'forms': f})
         cases.append({'state': spec, 'ops': ops, 'want': {}, 'stream': 'covering-x'})
+        nbw.append(cases[-1])
     # segments with non-trivial outer bonds, repeated canonicalisations interleaved with modifications near both
     # boundaries; the dense state includes segment_boundaries and psi.norm (own random stream)
     rs = _random.Random(ctx.seed * 7919 + 737)
     for n in range(ctx.pick(70, 600) * mult):
         cases.append(gen_segment_dense_case(rs, SI))
+        nbw.append(cases[-1])
+    # tensors / local states of DIFFERENT dtypes handed to one constructor (raw-tensor constructor, from_Bflat,
+    # from_product_mps_covering, add), finite / segment / infinite; own random stream
+    rm = _random.Random(ctx.seed * 7919 + 747)
+    for n in range(ctx.pick(44, 400) * mult):
+        r_ = rm.random()
+        if r_ < 0.2:
+            spec = X.gen_mixed_infinite(rm)
+            L = len(spec['sites'])
+            dims = [G.std_table(k)[0] for k in spec['sites']]
+            cases.append({'state': spec, 'ops': gen_c07_ops(rm, L, 'infinite', rm.randint(0, 2)),
+                          'want': {'rdm': inf_segments(rm, L, dims)}, 'stream': 'mixed-dtype'})
+        else:
+            spec, ops0 = X.gen_mixed_finite(rm, SI)
+            L = len(spec['sites'])
+            b = spec['build']
+            canon = b['method'] != 'bflat' or b.get('ctor') != 'raw' or b['form'] is None
+            if r_ < 0.35 and L >= 3 and canon and not ops0 and not covering_known(spec):
+                first = rm.randrange(0, L - 1)
+                last = rm.randrange(first + 1, L)
+                n_seg = last - first + 1
+                segs = [[i] for i in range(n_seg)] + [[i, i + 1] for i in range(n_seg - 1)]
+                seg = {'bc': 'segment', 'sites': spec['sites'][first:last + 1], 'parent': spec, 'segment': [first, last]}
+                cases.append({'state': seg, 'ops': gen_c07_ops(rm, n_seg, 'segment', rm.randint(0, 2)), 'want': {'rdm': segs},
+                              'stream': 'mixed-dtype'})
+            else:
+                cases.append({'state': spec, 'ops': ops0 + gen_c07_ops(rm, L, 'finite', rm.randint(0, 3)), 'want': {},
+                              'stream': 'mixed-dtype'})
+        nbw.append(cases[-1])
+    rb = _random.Random(ctx.seed * 7919 + 757)
+    for c in nbw:
+        c['want']['bonds'] = X.bond_want(rb, c['state']['bc'], len(c['state']['sites']))
     # drop infinite bflat cases whose reference is ill-conditioned (degenerate transfer matrix)
     datas = []
     keep = []
     for c in cases:
         spec = c['state']
         if spec['bc'] == 'finite':
-            D = G.build_data(spec, SI)
+            D = X.build_data_mixed(spec, SI) if X.is_mixed(spec) else G.build_data(spec, SI)
         elif spec['bc'] == 'segment':
-            D = G.build_data(spec['parent'], SI)
+            D = X.build_data_mixed(spec['parent'], SI) if X.is_mixed(spec['parent']) else G.build_data(spec['parent'], SI)
         else:
-            D = G.build_data_infinite(spec, SI)
+            D = X.build_data_infinite_mixed(spec, SI) if X.is_mixed(spec) else G.build_data_infinite(spec, SI)
             if spec['build']['method'] == 'bflat' and not D['ok']:
                 continue
         keep.append(c)
@@ -1169,4 +1261,8 @@ RULE = ('finite chains L 2-8 (spin-1/2, spin-1, fermion, spinful fermion, boson 
         'segment-dense: segments (2-5 sites, both outer bonds inside the parent, L 4-7) with 2-4 rounds of [set_B(perturbed tensor, any form label) / '
         'apply_local_op(1-2 sites, unitary or not, renormalize or not) / rescaled set_B / convert_form / set_svd_theta near the boundaries, then '
         'canonical_form(renormalize True/False)], non-trivial = both outer bond dimensions > 1 and at least two canonicalisations of a modified state; '
+        'mixed-dtype: raw-tensor constructor (labelled non-canonical or form=None + canonical_form, norm given) / from_Bflat / '
+        'from_product_mps_covering with real data on some sites and complex data on others, add of a real and a complex state, '
+        'segments of them, infinite unit cells 2-4; every observation of every stream: entanglement_entropy(n=1,2, bonds=...), '
+        'get_SL, get_SR at all accepted bond / site indices (finite, segment: bonds 0..L; infinite: -L-1..2L+1); '
         'a case is non-trivial when some bond dimension exceeds 1; distinct = distinct (state spec, history)')
